@@ -156,6 +156,7 @@ func cmdCheck(args []string) int {
 	var problems []string
 	totalPaths, totalInstr, totalAsserts, totalTrivial, solverCalls := 0, 0, 0, 0, 0
 	solverSecs := 0.0
+	crossChecked, crossUnknown := 0, 0
 	replayed := 0
 	violations := 0
 	funcs := map[string]int{}
@@ -200,6 +201,7 @@ func cmdCheck(args []string) int {
 			c.MapOrderFork = false
 		}
 		c.MaxViolations = 8
+		c.CrossCheck = *tier == "thorough" || os.Getenv("VERIF_CROSS") == "1"
 		e, err := NewEngine(c, P, hs.Name)
 		if err != nil {
 			fmt.Printf("INCONCLUSIVE %v\n", err)
@@ -222,6 +224,8 @@ func cmdCheck(args []string) int {
 		totalTrivial += hr.AssertsTrivial
 		solverCalls += hr.SolverCalls
 		solverSecs += hr.SolverSecs
+		crossChecked += hr.CrossChecked
+		crossUnknown += hr.CrossUnknown
 		if hr.MaxLoop > maxLoop {
 			maxLoop = hr.MaxLoop
 		}
@@ -383,7 +387,7 @@ func cmdCheck(args []string) int {
 				"reach_tags":                    sortedCounts(reachAll),
 				"bounds":                        spec.Bounds[*tier],
 				"outside_claim":                 spec.Outside,
-				"solver":                        map[string]interface{}{"name": "z3 4.8.12 (z3 -in, one process per worker)", "calls": solverCalls, "seconds": round2(solverSecs)},
+				"solver":                        map[string]interface{}{"name": "z3 5.1.0 (z3-new -in, one process per worker)", "calls": solverCalls, "seconds": round2(solverSecs), "cross_check": "every solver-discharged assertion re-decided on z3 4.8.12 and cvc5 1.0 (thorough tier, or VERIF_CROSS=1)", "cross_checked_agreeing": crossChecked, "cross_check_unknown": crossUnknown},
 				"load_s":                        round2(P.loadSecs),
 				"timer_durations_seen":          sortedCounts(durations),
 				"inconclusive":                  problems,
